@@ -146,20 +146,26 @@ func MergerLoops(p *load.Prog, r *oblig.Report, rule string) {
 		return fn != nil && fn.Pkg() != nil && fn.Pkg().Path() == "errors" && fn.Name() == "As" && asTotal
 	}
 	var classify func(st ast.Stmt) string
+	helperDepth := 0
 	classify = func(st ast.Stmt) string {
 		// helper(…) as a statement: what the helper's body does to the item (its top-level statements)
 		if es, isExpr := st.(*ast.ExprStmt); isExpr {
 			if call, isCall := es.X.(*ast.CallExpr); isCall {
-				if id, isID := call.Fun.(*ast.Ident); isID {
-					if hf, _ := info.Uses[id].(*types.Func); hf != nil && hf.Pkg() == pk.Types {
-						for _, hd := range p.WithHelpers(pk, fd, 1)[1:] {
-							if info.Defs[hd.Name] == hf {
-								for _, hs := range hd.Body.List {
-									if k := classify(hs); k != "" {
-										return k
-									}
+				// a function or a method of the package (an error collector's add, a merge helper)
+				if hf, _ := typeutil.Callee(info, call).(*types.Func); hf != nil && hf.Pkg() == pk.Types && helperDepth < 3 {
+					if hf.Origin() != nil {
+						hf = hf.Origin()
+					}
+					for _, hd := range p.WithHelpers(pk, fd, 3)[1:] {
+						if info.Defs[hd.Name] == hf {
+							helperDepth++
+							for _, hs := range hd.Body.List {
+								if k := classify(hs); k != "" {
+									helperDepth--
+									return k
 								}
 							}
+							helperDepth--
 						}
 					}
 				}
@@ -864,7 +870,7 @@ func ForwardedErrors(p *load.Prog, r *oblig.Report, rule string) {
 		for _, b := range fns[i].Blocks {
 			for _, in := range b.Instrs {
 				if ci, ok := in.(ssa.CallInstruction); ok {
-					if cal := ci.Common().StaticCallee(); cal != nil && cal.Pkg == merger.Pkg && !seen[cal] && len(cal.Blocks) > 0 && !ast.IsExported(cal.Name()) {
+					if cal := ci.Common().StaticCallee(); cal != nil && cal.Pkg == merger.Pkg && !seen[cal] && len(cal.Blocks) > 0 && !helperExported(cal) {
 						seen[cal] = true
 						fns = append(fns, cal)
 					}
@@ -889,6 +895,45 @@ func ForwardedErrors(p *load.Prog, r *oblig.Report, rule string) {
 					if _, fresh := sl.X.(*ssa.Alloc); fresh {
 						continue // a literal argument list: judged by the merge-error rule
 					}
+				}
+				if listOfOwnLiterals(list, 0, map[ssa.Value]bool{}) {
+					// a list a helper filled with the merger's own error literals: each literal is judged by the merge-error rule
+					continue
+				}
+				// the list is a parameter of a collector helper (add(errs ...error)): judged at every call of the helper
+				if prm, isPrm := list.(*ssa.Parameter); isPrm && fn != merger {
+					idx := -1
+					for i, q := range fn.Params {
+						if q == prm {
+							idx = i
+						}
+					}
+					for _, g := range fns {
+						for _, gb := range g.Blocks {
+							for _, gin := range gb.Instrs {
+								site, ok := gin.(ssa.CallInstruction)
+								if !ok || site.Common().StaticCallee() != fn || idx < 0 || idx >= len(site.Common().Args) {
+									continue
+								}
+								arg := site.Common().Args[idx]
+								if sl, ok := arg.(*ssa.Slice); ok {
+									if _, fresh := sl.X.(*ssa.Alloc); fresh {
+										continue
+									}
+								}
+								if listOfOwnLiterals(arg, 0, map[ssa.Value]bool{}) {
+									continue
+								}
+								n++
+								if why := fileStoredForAll(merger, g, gin, arg); why != "" {
+									r.Bad(rule, "merge-error:forwarded errors", p.Pos(gin.Pos()), "errors are forwarded without naming the file they were found in ("+why+"): with two unparseable files the caller cannot tell which one is at fault")
+								} else {
+									r.OK(rule, "merge-error:forwarded errors", p.Pos(gin.Pos()), "file-stored-per-element", "a complete loop over the same list stores the parsed file's name into every element before the list is handed to the collector")
+								}
+							}
+						}
+					}
+					continue
 				}
 				n++
 				construct := "merge-error:forwarded errors"
@@ -933,6 +978,80 @@ func ForwardedErrors(p *load.Prog, r *oblig.Report, rule string) {
 	if n == 0 {
 		r.Unknown(rule, "merge-error:forwarded", p.Pos(merger.Pos()), "no forwarded error list found in the merger (anchor gone)")
 	}
+}
+
+// listOfOwnLiterals: every element of the error list v is a fresh ModuleTransformationSingleError literal
+// (appended in this function or in the repository helper that returns the list).
+func listOfOwnLiterals(v ssa.Value, depth int, seen map[ssa.Value]bool) bool {
+	if depth > 8 {
+		return false
+	}
+	if seen[v] {
+		return true
+	}
+	seen[v] = true
+	switch x := v.(type) {
+	case *ssa.Const:
+		return x.IsNil()
+	case *ssa.MakeSlice:
+		c, ok := x.Len.(*ssa.Const)
+		return ok && c.Int64() == 0
+	case *ssa.Phi:
+		for _, e := range x.Edges {
+			if !listOfOwnLiterals(e, depth+1, seen) {
+				return false
+			}
+		}
+		return true
+	case *ssa.Slice:
+		al, ok := x.X.(*ssa.Alloc)
+		if !ok || al.Referrers() == nil {
+			return false
+		}
+		for _, ref := range *al.Referrers() {
+			ia, ok := ref.(*ssa.IndexAddr)
+			if !ok {
+				continue
+			}
+			if ia.Referrers() == nil {
+				continue
+			}
+			for _, r2 := range *ia.Referrers() {
+				st, ok := r2.(*ssa.Store)
+				if !ok {
+					continue
+				}
+				val := st.Val
+				if mi, ok := val.(*ssa.MakeInterface); ok {
+					val = mi.X
+				}
+				lit, ok := val.(*ssa.Alloc)
+				if !ok || structNameOf(lit.Type()) != "ModuleTransformationSingleError" {
+					return false
+				}
+			}
+		}
+		return true
+	case *ssa.Call:
+		if c, ok := appendCall(x); ok {
+			return listOfOwnLiterals(c.Common().Args[0], depth+1, seen) && listOfOwnLiterals(c.Common().Args[1], depth+1, seen)
+		}
+		h := x.Common().StaticCallee()
+		if h == nil || !load.InRepo(h) || len(h.Blocks) == 0 || h.Signature.Results().Len() != 1 {
+			return false
+		}
+		n := 0
+		for _, b := range h.Blocks {
+			if ret, ok := b.Instrs[len(b.Instrs)-1].(*ssa.Return); ok {
+				n++
+				if !listOfOwnLiterals(ret.Results[0], depth+1, seen) {
+					return false
+				}
+			}
+		}
+		return n > 0
+	}
+	return false
 }
 
 // fileValueOK: v is <module>.Name of the module whose Contents the merger parses, directly or as a helper
